@@ -27,7 +27,9 @@ THEOREMS = [
     "GoaktVerif.C39.C39_partial",
     "GoaktVerif.C39.orset_violates_delta_law",
     "GoaktVerif.C39.orset_delta_loses_add",
-    "GoaktVerif.C39.lww_stale_write_diverges",
+    "GoaktVerif.C39.lww_stale_write_ignored",
+    "GoaktVerif.C39.lw_laws",
+    "GoaktVerif.C39.C39_lww",
     "GoaktVerif.C39.ormap_readd_diverges",
     "GoaktVerif.C39.C39_refuted",
 ]
@@ -35,8 +37,8 @@ INPKG = ["actor/zz_verif_c41.go", "crdt/zz_verif_c38.go"]
 TIMEOUT = 900
 ORACLE_NEEDS_JUDGE = True
 MANIFEST = {
-    "level_text": "Kernel-checked: (1) a GENERIC convergence theorem over the replicator model (Model/C41 handlers handleUpdate/handleDelta, any number of replicas, codec between publisher and receiver, deltas delivered in any order / duplicated / never): if a type's merge is a join on cores and its mutators are delta-mutators (Laws), every replica's core is the join of the deltas it has seen (reach_inv), so replicas with the same seen-set hold the same core (converge) and a replica that has seen everything holds the join of all deltas (complete_eq_join_all, below_join_all); the ACI-fold lemmas J_sameSet/J_append are proved from the semilattice laws. (2) Instances: G-counter and PN-counter (no-overflow guard) and Flag satisfy the laws (gc_laws, pn_laws, fl_laws) hence converge (C39_gcounter, C39_pncounter, C39_flag, C39_partial); the network of the theorem has delta deliveries in any order / duplicated / never AND full-state merges between any two replicas at any time. (3) The full statement over the seven types is REFUTED (C39_refuted) with three independent model witnesses evaluated by the kernel and replayed on the real code: OR-set deltas lose earlier adds (orset_delta_loses_add; Add is not a delta-mutator: orset_violates_delta_law), stale LWW writes (lww_stale_write_diverges), OR-map remove+re-set (ormap_readd_diverges). Tie: real replicator actors with all seven types driven message by message, full store dumps compared with the model after every message.",
-    "level_note": "Partial. Proved instances: G-counter, PN-counter, Flag. MV-register, OR-map-without-removes and OR-set-under-full-state-merge are covered by the differential + the Spec.C39 oracle only (no law instance proved; MV and OR-map ship full states, their merges are joins only up to C38's equivalences). Findings C39-F1/F2/F3 are open (F1 needs a dot context in the delta: not a small fix; F2 has a proposed fix; F3 is the OR-map value-merge design). uint64 wrap of counters is excluded by guard.",
+    "level_text": "Kernel-checked: (1) a GENERIC convergence theorem over the replicator model (Model/C41 handlers handleUpdate/handleDelta, any number of replicas, codec between publisher and receiver, deltas delivered in any order / duplicated / never): if a type's merge is a join on cores and its mutators are delta-mutators (Laws), every replica's core is the join of the deltas it has seen (reach_inv), so replicas with the same seen-set hold the same core (converge) and a replica that has seen everything holds the join of all deltas (complete_eq_join_all, below_join_all); the ACI-fold lemmas J_sameSet/J_append are proved from the semilattice laws. (2) Instances: G-counter and PN-counter (no-overflow guard), Flag, and — since fix 670e96a — the LWW register (guard: a stamp names one write, timestamps >= 0) satisfy the laws (gc_laws, pn_laws, fl_laws, lw_laws) hence converge (C39_gcounter, C39_pncounter, C39_flag, C39_lww, C39_partial); the network of the theorem has delta deliveries in any order / duplicated / never AND full-state merges between any two replicas at any time. (3) The full statement over the seven types is REFUTED (C39_refuted) with two independent model witnesses evaluated by the kernel and replayed on the real code: OR-set deltas lose earlier adds (orset_delta_loses_add; Add is not a delta-mutator: orset_violates_delta_law), OR-map remove+re-set (ormap_readd_diverges); the former third witness (stale LWW write, C39-F2) is fixed by 670e96a and kept as lww_stale_write_ignored. Tie: real replicator actors with all seven types driven message by message, full store dumps compared with the model after every message.",
+    "level_note": "Partial. Proved instances: G-counter, PN-counter, Flag, LWW register. MV-register, OR-map-without-removes and OR-set-under-full-state-merge are covered by the differential + the Spec.C39 oracle only (no law instance proved; MV and OR-map ship full states, their merges are joins only up to C38's equivalences). Findings C39-F1 and C39-F3 are open (F1 needs a dot context in the delta: not a small fix; F3 is the OR-map value-merge design); C39-F2 is fixed (670e96a, seeded/C39-revert-lww-set). uint64 wrap of counters is excluded by guard.",
     "technique": "Lean 4 proof (generic delta-CRDT convergence theorem over the replicator model + per-type law instances, refutation witnesses by kernel evaluation) + per-message differential against real replicator actors",
 }
 TRUSTED = [
@@ -159,7 +161,7 @@ def classify(case, impl, why):
     """C39-F1: the or-set value check fails (elements lost; or, as a consequence, a remove that does not take effect on a
     peer because the remover had itself lost the dot) in a script where, before the failing op, some replica performed at
     least two or-set updates and some logged message was delivered - the precondition of the defect.
-    C39-F2: lww value check fails and the exposed value is a seen write with a lower stamp (stale=1), or two lww replicas that saw the same writes differ.
+    C39-F4: two lww replicas that saw the same writes differ, in a script where one replica wrote two different values under one timestamp.
     C39-F3: or-map replicas that saw the same updates expose the same keys but different values, and a seen update removed a key."""
     why = why or ""
     m = re.search(r"bad op=(\d+) tok=\S+ key=os kind=value exp=(\S*) act=(\S*)", why)
@@ -173,8 +175,17 @@ def classify(case, impl, why):
                 per[f[1]] = per.get(f[1], 0) + 1
         delivered = any(t.startswith("s:") for t in ops)
         return "C39-F1" if delivered and per and max(per.values()) >= 2 else None
-    if re.search(r"key=lw kind=value .*stale=1$", why) or re.search(r"key=lw kind=converge", why):
-        return "C39-F2"
+    m = re.search(r"bad op=(\d+) tok=\S+ key=lw kind=converge", why)
+    if m:
+        # C39-F4 (= C38-F1 seen through replication): one replica wrote two different values under one stamp
+        seen = {}
+        for t in case.split()[1:int(m.group(1)) + 1]:
+            f = t.split(":")
+            if f[0] == "u" and len(f) == 4 and f[2] == "lw":
+                a = f[3].split(".")
+                if len(a) == 3:
+                    seen.setdefault((f[1], a[2]), set()).add(a[1])
+        return "C39-F4" if any(len(v) > 1 for v in seen.values()) else None
     m = re.search(r"key=om kind=converge other=\d+ a=(\S*) b=(\S*) rem=1$", why)
     if m and m.group(1).split("#")[0] == m.group(2).split("#")[0]:
         return "C39-F3"
